@@ -76,7 +76,10 @@ VARIABLES S,        \* [bod, blk, roots, canon, headB, headH, txl, cur]: databas
           todo,     \* remaining database writes of the running InsertChain call
           seg,      \* the segment of the running / interrupted call
           phase,    \* "normal" | "crashed" | "restarted" | "recovering" | "further" | "done" | "dead" (the process panicked)
-          mode,     \* "none" | "extend" | "reorg": how the first block written by the call relates to the head
+          mode,     \* "none" | "extend" | "reorg": how the first block written by the (interrupted) call relates to the head
+          rmode,    \* the same for the call that imports the interrupted blocks again
+          cm,       \* the modes of the calls that were interrupted so far (with two crashes an inconsistency left by the first one
+                    \* may be observed after the second: the discriminator carries both)
           wrote,    \* database writes done in the current call
           lastop,   \* kind of the last write
           crashes,
@@ -84,7 +87,7 @@ VARIABLES S,        \* [bod, blk, roots, canon, headB, headH, txl, cur]: databas
           refHead,  \* head of the run that never crashed, after the interrupted call
           pruned,   \* solo engine: the ErrPrunedAncestor dispatch was reached (assumed unreachable, see NoPrunedDispatch)
           hist      \* the offered segments (generation)
-vars == <<S, todo, seg, phase, mode, wrote, lastop, crashes, fp, refHead, pruned, hist>>
+vars == <<S, todo, seg, phase, mode, rmode, cm, wrote, lastop, crashes, fp, refHead, pruned, hist>>
 
 \* ---------------------------------------------------------------- the tree with the dynamic block F
 Par(b, f) == IF b = "F" THEN f ELSE SPar[b]
@@ -217,7 +220,7 @@ Repair(s, b, f) == IF HasState(s, b, f) \/ b = "G" THEN b ELSE Repair(s, Par(b, 
 S0 == [bod |-> {"G"}, blk |-> {"G"}, roots |-> {{}}, canon |-> [n \in 0..MaxN |-> IF n = 0 THEN "G" ELSE "-"],
        headB |-> "G", headH |-> "G", txl |-> [t \in AllTx |-> "-"], cur |-> "G"]
 
-Init == /\ S = S0 /\ todo = <<>> /\ seg = <<>> /\ phase = "normal" /\ mode = "none" /\ wrote = 0
+Init == /\ S = S0 /\ todo = <<>> /\ seg = <<>> /\ phase = "normal" /\ mode = "none" /\ rmode = "none" /\ cm = {} /\ wrote = 0
         /\ lastop = "-" /\ crashes = 0 /\ fp = "G" /\ refHead = "G" /\ pruned = FALSE /\ hist = <<>>
 
 Idle == todo = <<>>
@@ -227,14 +230,14 @@ Offer(sg) == /\ phase = "normal" /\ Idle /\ Len(hist) < MaxOffers
              /\ todo' = Call(sg, fp) /\ seg' = sg /\ mode' = ModeOfOps(S, Call(sg, fp), fp) /\ wrote' = 0 /\ lastop' = "-"
              /\ pruned' = (pruned \/ (~Ucon /\ PrunedIn(S, sg, fp)))
              /\ hist' = Append(hist, sg)
-             /\ UNCHANGED <<S, phase, crashes, fp, refHead>>
+             /\ UNCHANGED <<S, phase, crashes, fp, refHead, rmode, cm>>
 
 Write == \* one database write
    /\ phase \in {"normal", "recovering", "further"} /\ todo # <<>>
    /\ S' = ApplyOp(S, Head(todo), fp)
    /\ todo' = Tail(todo) /\ wrote' = wrote + 1 /\ lastop' = Head(todo).op
    /\ phase' = IF Head(todo).op = "panic" THEN "dead" ELSE phase       \* nil pointer dereference in insertSidechain
-   /\ UNCHANGED <<seg, mode, crashes, fp, refHead, pruned, hist>>
+   /\ UNCHANGED <<seg, mode, rmode, cm, crashes, fp, refHead, pruned, hist>>
 
 Crash == \* the process dies after a write of the running call
    /\ phase \in (IF MaxCrash > 1 THEN {"normal", "recovering"} ELSE {"normal"})
@@ -242,28 +245,29 @@ Crash == \* the process dies after a write of the running call
    /\ refHead' = IF phase = "normal" THEN RunOps(S, todo, fp).cur ELSE refHead
    /\ S' = [S EXCEPT !.cur = "-"]
    /\ todo' = <<>> /\ phase' = "crashed" /\ crashes' = crashes + 1
-   /\ UNCHANGED <<seg, mode, wrote, lastop, fp, pruned, hist>>
+   /\ cm' = cm \cup {IF phase = "recovering" THEN rmode ELSE mode}
+   /\ UNCHANGED <<seg, mode, rmode, wrote, lastop, fp, pruned, hist>>
 
 Restart == \* NewBlockChain on the same database: loadLastState (+ repair); SetCurrentHeader writes the head header hash
    /\ phase = "crashed"
    /\ LET h == Repair(S, S.headB, fp) IN S' = [S EXCEPT !.cur = h, !.headH = h]
    /\ phase' = "restarted"
-   /\ UNCHANGED <<todo, seg, mode, wrote, lastop, crashes, fp, refHead, pruned, hist>>
+   /\ UNCHANGED <<todo, seg, mode, rmode, cm, wrote, lastop, crashes, fp, refHead, pruned, hist>>
 
 ReOffer == \* "the interrupted blocks ... are imported again"
    /\ phase = "restarted"
-   /\ todo' = Call(seg, fp) /\ phase' = "recovering" /\ wrote' = 0
+   /\ todo' = Call(seg, fp) /\ phase' = "recovering" /\ wrote' = 0 /\ rmode' = ModeOfOps(S, Call(seg, fp), fp)
    /\ pruned' = (pruned \/ (~Ucon /\ PrunedIn(S, seg, fp)))
-   /\ UNCHANGED <<S, seg, mode, lastop, crashes, fp, refHead, hist>>
+   /\ UNCHANGED <<S, seg, mode, cm, lastop, crashes, fp, refHead, hist>>
 
 Further == \* "... and any one further valid block": a child of the head of the run that never crashed
    /\ phase = "recovering" /\ Idle
    /\ fp' = refHead /\ todo' = Call(<<"F">>, refHead) /\ phase' = "further"
    /\ pruned' = (pruned \/ (~Ucon /\ PrunedIn(S, <<"F">>, refHead)))
-   /\ UNCHANGED <<S, seg, mode, wrote, lastop, crashes, refHead, hist>>
+   /\ UNCHANGED <<S, seg, mode, rmode, cm, wrote, lastop, crashes, refHead, hist>>
 
 Finish == /\ phase = "further" /\ Idle /\ phase' = "done"
-          /\ UNCHANGED <<S, todo, seg, mode, wrote, lastop, crashes, fp, refHead, pruned, hist>>
+          /\ UNCHANGED <<S, todo, seg, mode, rmode, cm, wrote, lastop, crashes, fp, refHead, pruned, hist>>
 
 Next == (\E sg \in Segs : Offer(sg)) \/ Write \/ Crash \/ Restart \/ ReOffer \/ Further \/ Finish
 Spec == Init /\ [][Next]_vars
@@ -273,7 +277,8 @@ Obs == [head |-> S.cur, hn |-> NumOf(S.cur, fp), canon |-> [n \in 1..(MaxN + 1) 
         txl |-> S.txl, st |-> HasState(S, S.cur, fp)]
 AtRest == Idle /\ phase \in {"normal", "restarted", "done"}
 PhaseDisc == CASE phase = "normal" -> "nocrash" [] phase = "restarted" -> "crash" [] OTHER -> "recovered"
-Disc(name) == Class(name, Tree(fp), Obs) \cup {PhaseDisc, mode}
+ModeDisc == IF crashes = 0 THEN {mode} ELSE cm
+Disc(name) == Class(name, Tree(fp), Obs) \cup {PhaseDisc} \cup ModeDisc
 
 Cex(name) == PrintT("@@J " \o ToJson([kind |-> "CEX", clause |-> name, disc |-> Disc(name), h |-> hist])) /\ FALSE
 
@@ -281,7 +286,7 @@ Cex(name) == PrintT("@@J " \o ToJson([kind |-> "CEX", clause |-> name, disc |-> 
 Consistent == AtRest => \A name \in Failing(Tree(fp), Obs) : IsKnown(KnownF, name, Disc(name)) \/ Cex(name)
 \* "it has the same head and state as a node that never crashed" (whose head is F)
 WedgedDisc == {IF phase = "dead" THEN "panic_in_recovery" ELSE IF S.cur # "F" THEN "different_head" ELSE "state_unavailable",
-               "recovered", mode}
+               "recovered"} \cup ModeDisc
 NotWedged == phase \in {"done", "dead"} =>
                 \/ (phase = "done" /\ S.cur = "F" /\ HasState(S, "F", fp))
                 \/ IsKnown(KnownF, "NotWedged", WedgedDisc)
@@ -291,5 +296,5 @@ NoPrunedDispatch == ~pruned
 
 \* ---------------------------------------------------------------- generation
 Leaf == (GenMode = "leaf" /\ Len(hist) = MaxOffers /\ Idle /\ phase = "normal") => PrintT("@@J " \o ToJson([kind |-> "B", h |-> hist]))
-View == <<S, todo, seg, phase, mode, wrote, lastop, crashes, fp, refHead, pruned, Len(hist)>>
+View == <<S, todo, seg, phase, mode, rmode, cm, wrote, lastop, crashes, fp, refHead, pruned, Len(hist)>>
 =============================================================================
